@@ -1114,6 +1114,7 @@ func (ex *Exec) sliceOp(st *State, x *ssa.Slice) Value {
 		}
 		ex.safety(st, x, "slice", tAnd(tLe(intLit(0), lo), tLe(lo, hi), tLe(hi, n)))
 		r := ex.uf(st, "substr", SInt, s, lo, hi)
+		st.assume(tEq(ex.strLen(st, r), tSub(hi, lo))) // Go slices strings by bytes: len(s[lo:hi]) == hi-lo
 		return Sc{r}
 	case *types.Pointer: // slicing an array through its pointer
 		at, ok := under(t.Elem()).(*types.Array)
